@@ -69,3 +69,26 @@ Theorem C03_refuted_shared_route : forall r1 r2,
   count_ops_for (ri_method r1) (openapi_ops [r1; r2]) = 0.
 Proof. exact shared_key_loses_one. Qed.
 Print Assumptions C03_refuted_shared_route.
+
+(* Template family: RPCs of one service on the same path hierarchy whose variables are named
+   differently (the variable has to be spelled like the request field: GetItemReq.id vs
+   DeleteItemReq.item_id).  None of them is in a defect class, every generator keeps the RPC's own
+   template and path fields, and the OpenAPI document holds one operation per RPC, each under the
+   template of its own RPC (a path item is shared only by RPCs whose templates are spelled alike). *)
+Definition ex_family : list rpc_info :=
+  [ {| ri_service := s "Items"; ri_gopkg := s "items"; ri_base := s "/api/v1"; ri_method := s "GetItem";
+       ri_has_cfg := true; ri_path := s "/items/{id}"; ri_verb := Some GET; ri_query := [] |};
+    {| ri_service := s "Items"; ri_gopkg := s "items"; ri_base := s "/api/v1"; ri_method := s "DeleteItem";
+       ri_has_cfg := true; ri_path := s "/items/{item_id}"; ri_verb := Some DELETE; ri_query := [] |};
+    {| ri_service := s "Items"; ri_gopkg := s "items"; ri_base := s "/api/v1"; ri_method := s "PutItem";
+       ri_has_cfg := true; ri_path := s "/items/{id}"; ri_verb := Some PUT; ri_query := [] |} ].
+Example C03_template_family :
+  forallb (fun r => match defects_C03 r with [] => true | _ => false end) ex_family = true /\
+  map (fun r => rt_path (openapi r)) ex_family =
+    [s "/api/v1/items/{id}"; s "/api/v1/items/{item_id}"; s "/api/v1/items/{id}"] /\
+  map (fun r => rt_pathvars (openapi r)) ex_family = [[s "id"]; [s "item_id"]; [s "id"]] /\
+  map (fun r => rt_pathvars (go_server r)) ex_family = [[s "id"]; [s "item_id"]; [s "id"]] /\
+  map (fun r => count_ops_for (ri_method r) (openapi_ops ex_family)) ex_family = [1; 1; 1]%nat /\
+  map (fun e => fst (fst e)) (openapi_ops ex_family) =
+    [s "/api/v1/items/{id}"; s "/api/v1/items/{item_id}"; s "/api/v1/items/{id}"].
+Proof. vm_compute. repeat split; reflexivity. Qed.
